@@ -413,8 +413,9 @@ def _float(rng, ty):
     return f"{sign}0.{mant}" if mant else "0.0"
 
 
-def instance(t, rng):
-    """tokens of a value that conforms to t"""
+def instance(t, rng, flip=None):
+    """tokens of a value that conforms to t.  flip = [countdown, done]: the countdown-th tagged item is written in
+    the other form (a keyword item as /begin../end block or a block as keyword) - a deviation of the block form"""
     k = t["k"]
     if k == "none":
         return []
@@ -425,13 +426,13 @@ def instance(t, rng):
     if is_string(t):
         return [_string(rng, t["n"])]
     if k == "array":
-        return [x for _ in range(t["n"]) for x in instance(t["t"], rng)]
+        return [x for _ in range(t["n"]) for x in instance(t["t"], rng, flip)]
     if k == "enum":
         return [rng.choice(t["items"])["tag"]]
     if k == "struct":
-        return [x for m in t["ms"] for x in instance(m, rng)]
+        return [x for m in t["ms"] for x in instance(m, rng, flip)]
     if k == "seq":
-        return [x for _ in range(rng.choice([0, 1, 2, 3])) for x in instance(t["t"], rng)]
+        return [x for _ in range(rng.choice([0, 1, 2, 3])) for x in instance(t["t"], rng, flip)]
     tags = list(t["tags"])
     rng.shuffle(tags)
     chosen = []
@@ -444,9 +445,21 @@ def instance(t, rng):
         rng.shuffle(chosen)
     out = []
     for g in chosen:
-        body = instance(g["t"], rng)
-        out += (["/begin", g["tag"]] + body + ["/end", g["tag"]]) if g["block"] else ([g["tag"]] + body)
+        block = g["block"]
+        if flip is not None and not flip[1]:
+            flip[0] -= 1
+            if flip[0] <= 0:
+                block, flip[1] = not block, True
+        body = instance(g["t"], rng, flip)
+        out += (["/begin", g["tag"]] + body + ["/end", g["tag"]]) if block else ([g["tag"]] + body)
     return out
+
+
+def instance_wrong_blockform(t, rng):
+    """(tokens, flipped): an instance in which one tagged item has the wrong block form"""
+    flip = [rng.randint(1, 3), False]
+    toks = instance(t, rng, flip)
+    return toks, flip[1]
 
 
 def deviate(tokens, rng):
